@@ -127,7 +127,7 @@ def opLine (d : DState) : List String → Option (DState × String)
     -- environment: the power `GetOracle(o).GetPower()` now has (`none`: the oracle is no longer found)
     let o ← o.toNat?
     let pw : Option Nat ← if p == "none" then pure none else (p.toNat?).map some
-    pure ({ d with st := stepWith [] (fun c => hashHex c.path) (fun _ _ => true) d.st (.setPower o pw) }, "ok")
+    pure ({ d with st := stepWith [] [] (fun c => hashHex c.path) (fun _ _ => true) d.st (.setPower o pw) }, "ok")
   | ["total", t] => do
     pure ({ d with st := { d.st with total := (← t.toNat?) } }, "ok")
   | "hbt" :: m :: pre :: claim => do
